@@ -236,6 +236,7 @@ type RunOpts struct {
 	Seed        int
 	PrefixDepth int
 	MaxViol     int
+	TermsCap    int
 }
 
 type RunResult struct {
@@ -439,6 +440,9 @@ func Run(sc *Scenario, opts RunOpts) (*RunResult, error) {
 		opts.PrefixDepth = 2
 	}
 	e := &explorer{sc: sc, opts: opts, vis: newVisited(sc.Budget), violCnt: map[string]int64{}, termsCap: 64}
+	if opts.TermsCap > 0 {
+		e.termsCap = opts.TermsCap
+	}
 
 	// worlds are built sequentially (SDK construction is not guaranteed thread-safe), used in parallel
 	workers := make([]*worker, opts.Workers)
@@ -588,7 +592,7 @@ func Run(sc *Scenario, opts RunOpts) (*RunResult, error) {
 			s.Merge(m.Stats())
 		}
 		for _, t := range wk.terms {
-			if len(rr.Terminals) < 256 {
+			if len(rr.Terminals) < 256 || opts.TermsCap > 0 {
 				rr.Terminals = append(rr.Terminals, t)
 			}
 		}
